@@ -24,6 +24,7 @@ size pre-checks.  The encodings provably never raise (`isIsomorphic_total`).  Hy
 labels are clean (`cleanGraph`: no role named `--…`; needed for soundness only, `cleanLabels_needed`).
 -/
 import Verif.C06.Complete
+import Verif.C06.Encoding
 
 namespace Verif.C06
 open Verif.Sem
@@ -242,6 +243,103 @@ theorem isIsomorphic_invariant (properties : Bool) (m1 m2 m1' m2' : MRS)
   · have hiso' : ¬ IsIso g1' g2' := fun h =>
       hiso (isIso_trans i1 (isIso_trans h (isIso_symm i2)))
     rw [e.2.2 hiso, e'.2.2 hiso']
+
+/-! ## "… is unaffected by consistently renaming variables and reordering predications and
+constraints" — at the level of the MRS itself (equivariance of the encoding + completeness) -/
+
+/-- **Renaming invariance.**  `renMRS σ m` is `m` with every variable `v` replaced by `σ v`; `σ` is
+injective on the variables of `m`.  Hypotheses `NamesOK` (Encoding.lean) on both structures: distinct
+variables have distinct names, distinct predications distinct ids (every non-quantifier predication its
+own intrinsic variable, no two quantifiers over variables with the same number), a predication id is
+a variable name only if it is that predication's own intrinsic variable, no label is a predication
+id.  No hypothesis on edge labels (completeness does not need `cleanGraph`). -/
+theorem isIsomorphic_renamed (properties : Bool) (σ : Var → Var) (m : MRS)
+    (h : NamesOK m) (h' : NamesOK (renMRS σ m))
+    (hσ : ∀ x ∈ rawVars m, ∀ y ∈ rawVars m, σ x = σ y → x = y) :
+    isIsomorphic properties m (renMRS σ m) = .ok true := by
+  obtain ⟨g, hg, hc⟩ := mkIsoGraph_ok properties m
+  obtain ⟨g', hg', hc'⟩ := mkIsoGraph_ok properties (renMRS σ m)
+  have ha : invMap g = .ok (invMapRaw g) := by simp [invMap, hc]
+  have ha' : invMap g' = .ok (invMapRaw g') := by simp [invMap, hc']
+  exact isIsomorphic_complete properties m (renMRS σ m) g g' _ _ hg hg' ha ha' (renamed_sizes hσ)
+    (rename_iso properties h h' hσ hg hg')
+
+/-- **Reordering invariance.**  `m'` has the predications, handle constraints and individual
+constraints of `m` in another order (`Reordered`).  Hypotheses: predication ids distinct before
+`_uniquify_ids` (`SimpleIds`), `rowsOK` (no label is a predication id), and the property's "without
+parallel constraints" (`NoParallel`: two different predications / constraints never write the same
+(node, target) position of the graph). -/
+theorem isIsomorphic_reordered (properties : Bool) (m m' : MRS) (hr : Reordered m m')
+    (hs : SimpleIds m) (hrow : rowsOK m = true) (hnp : NoParallel m) :
+    isIsomorphic properties m m' = .ok true := by
+  obtain ⟨g, hg, hc⟩ := mkIsoGraph_ok properties m
+  obtain ⟨g', hg', hc'⟩ := mkIsoGraph_ok properties m'
+  have ha : invMap g = .ok (invMapRaw g) := by simp [invMap, hc]
+  have ha' : invMap g' = .ok (invMapRaw g') := by simp [invMap, hc']
+  exact isIsomorphic_complete properties m m' g g' _ _ hg hg' ha ha' (reordered_sizes hr)
+    (reorder_iso properties hr hs hrow hnp hg hg')
+
+/-- both at once: a renamed and reordered copy is isomorphic -/
+theorem isIsomorphic_renamed_reordered (properties : Bool) (σ : Var → Var) (m m' : MRS)
+    (h : NamesOK m) (h' : NamesOK (renMRS σ m))
+    (hσ : ∀ x ∈ rawVars m, ∀ y ∈ rawVars m, σ x = σ y → x = y)
+    (hr : Reordered (renMRS σ m) m') (hnp : NoParallel (renMRS σ m)) :
+    isIsomorphic properties m m' = .ok true := by
+  obtain ⟨g, hg, hc⟩ := mkIsoGraph_ok properties m
+  obtain ⟨g1, hg1, _⟩ := mkIsoGraph_ok properties (renMRS σ m)
+  obtain ⟨g', hg', hc'⟩ := mkIsoGraph_ok properties m'
+  have ha : invMap g = .ok (invMapRaw g) := by simp [invMap, hc]
+  have ha' : invMap g' = .ok (invMapRaw g') := by simp [invMap, hc']
+  exact isIsomorphic_complete properties m m' g g' _ _ hg hg' ha ha'
+    (sizesDiffer_trans (renamed_sizes hσ) (reordered_sizes hr))
+    (isIso_trans (rename_iso properties h h' hσ hg hg1)
+      (reorder_iso properties hr h'.simple h'.rows hnp hg1 hg'))
+
+/-! ## "a changed predicate, … constant … or property is never reported as isomorphic" — reading the
+graph isomorphism back at the MRS level (node labels) -/
+
+/-- the comparison key of a predication: normalised predicate + `(constant)` + `{PROP=val|…}` of its
+intrinsic variable (the last only when properties are compared) -/
+def nodeLabels (properties : Bool) (m : MRS) : List Label :=
+  m.preds.map (fun q => epNodeLabel properties m q.2)
+
+-- FULL STATEMENT (not proved): isIsomorphic properties m1 m2 = .ok true → there are a bijection of the
+--   variables and a bijection of the predications of m1 and m2 that preserve node labels, labels (scope
+--   membership), every role-labelled argument, every handle and individual constraint.
+-- Proved here: the predication bijection with its node labels.  Missing for the rest: reading EDGES back
+-- from `mkIsoGraph_edge` — it needs the three label alphabets to be disjoint (`eq-scope`, role names,
+-- constraint relations) and the inverse of the `' '.join(sorted(roles))` merge; the direct oracle's
+-- exhaustive search on the MRS objects carries those clauses.
+/-- Whenever `is_isomorphic` answers `True` (clean edge labels, distinct predication ids, no label
+that is a predication id), the two MRSs have the same multiset of predication node labels. -/
+theorem faithful_labels_partial (properties : Bool) (m1 m2 : MRS)
+    (hr1 : rowsOK m1 = true) (hr2 : rowsOK m2 = true)
+    (hc1 : Encodable properties m1) (hc2 : Encodable properties m2)
+    (h : isIsomorphic properties m1 m2 = .ok true) :
+    (nodeLabels properties m1).Perm (nodeLabels properties m2) := by
+  obtain ⟨g1, g2, hg1, hg2, hiso⟩ := isIsomorphic_sound properties m1 m2 h
+  obtain ⟨μ, hμ⟩ := hiso (hc1 g1 hg1) (hc2 g2 hg2)
+  exact labels_perm hr1 hr2 hg1 hg2 hμ
+
+/-- … hence: if ONE predication's node label is changed (its predicate, its constant, or — with
+properties compared — a property value of its intrinsic variable) and nothing else, the answer is
+`False`. -/
+theorem single_label_change_rejected (properties : Bool) (m1 m2 : MRS)
+    (hr1 : rowsOK m1 = true) (hr2 : rowsOK m2 = true)
+    (hc1 : Encodable properties m1) (hc2 : Encodable properties m2)
+    (A B : List Label) (a b : Label) (hab : a ≠ b)
+    (h1 : nodeLabels properties m1 = A ++ a :: B) (h2 : nodeLabels properties m2 = A ++ b :: B) :
+    isIsomorphic properties m1 m2 = .ok false := by
+  obtain ⟨v, hv⟩ := isIsomorphic_total properties m1 m2
+  cases v with
+  | false => exact hv
+  | true =>
+    exfalso
+    have hp := faithful_labels_partial properties m1 m2 hr1 hr2 hc1 hc2 hv
+    rw [h1, h2] at hp
+    have := hp.count_eq a
+    simp only [List.count_append, List.count_cons_self, List.count_cons_of_ne (Ne.symm hab)] at this
+    omega
 
 /-! ## "Comparing two bags of MRSs returns counts with unique-test + shared = size of test and
 shared + unique-gold = size of gold" -/
